@@ -372,6 +372,16 @@ func alphabet(m *tbin.Val, s *tbin.Shape, typed bool) []op {
 				ops = append(ops, op{Kind: "setmany", Many: sel, Trig: manyTrig(m, sel[:1]) + ",all-children", Expect: "many"})
 			}
 		}
+		if m.T == tbin.MAP && len(ch) >= 2 && ch[0].Bin.K != 0 && ch[1].Bin.K != 0 && ch[0].PE.K != 'b' && ch[0].S != nil && ch[1].S != nil {
+			// one request that spells its keys in two ways: natural str / int key and raw bin key
+			a := manyItem{PE: ch[0].PE, Val: fresh(ch[0].S, 1, 21), ValS: ch[0].S, Present: true}
+			b := manyItem{PE: ch[1].Bin, Val: fresh(ch[1].S, 1, 22), ValS: ch[1].S, Present: true}
+			a2 := manyItem{PE: ch[0].Bin, Val: fresh(ch[0].S, 1, 23), ValS: ch[0].S, Present: true}
+			b2 := manyItem{PE: ch[1].PE, Val: fresh(ch[1].S, 1, 24), ValS: ch[1].S, Present: true}
+			for _, sel := range [][]manyItem{{a, b}, {b, a}, {a2, b2}, {b2, a2}} {
+				ops = append(ops, op{Kind: "setmany", Many: sel, Trig: manyTrig(m, sel[:1]) + ",mixed-key-spellings", Expect: "many"})
+			}
+		}
 		for i := range cands {
 			ops = append(ops, op{Kind: "setmany", Many: []manyItem{cands[i]}, Trig: manyTrig(m, cands[i:i+1]), Expect: "many"})
 			for j := range cands {
